@@ -1,6 +1,8 @@
 import flowpaths.stdag as stdag
 import networkx as nx
-from collections import deque 
+from collections import deque
+from fractions import Fraction
+import math
 import flowpaths.utils as utils
 
 def compute_inexact_flow_decomp_safe_paths(
@@ -97,13 +99,25 @@ def compute_inexact_flow_decomp_safe_paths(
 
     # The bounds are read as Python numbers: the differences below are negative at times, and unsigned numpy
     # integers would wrap around instead
+    # The excess flow is computed exactly: integers as Python ints, other values as fractions.
     def lower(u, v):
         value = G.edges[u, v][lowerbound_attr]
-        return value.item() if hasattr(value, "item") else value
+        value = value.item() if hasattr(value, "item") else value
+        return value if isinstance(value, int) else Fraction(value)
 
     def upper(u, v):
         value = G.edges[u, v][upperbound_attr]
-        return value.item() if hasattr(value, "item") else value
+        value = value.item() if hasattr(value, "item") else value
+        return value if isinstance(value, int) else Fraction(value)
+
+    # Float values meant as decimal numbers (0.1 + 0.2 = 0.3) are each off by up to half a unit in the last place; an excess is a sum
+    # of edge values with coefficients +-1, so an excess within |E| units in the last place of the largest value counts as 0.
+    # (An absolute tolerance such as 1e-9 is below that noise for values around 1e7.) With integral values the excess is exact.
+    bound_values = [bound(u, v) for u, v in G.edges() for bound in (lower, upper) if (lowerbound_attr in G.edges[u, v] and upperbound_attr in G.edges[u, v])]
+    if all(isinstance(value, int) for value in bound_values):
+        excess_tolerance = 0
+    else:
+        excess_tolerance = G.number_of_edges() * Fraction(math.ulp(float(max(abs(value) for value in bound_values))))
 
     # The algorithm follows a two pointer approach computing inexact excess flow
     # See https://doi.org/10.1007/978-3-031-04749-7_11 and https://doi.org/10.4230/LIPIcs.SEA.2024.14
@@ -122,7 +136,8 @@ def compute_inexact_flow_decomp_safe_paths(
             # Initialize new safe path
             if L == R:
                 assert len(safe_path) == 1
-                assert inexact_excess == 0
+                assert abs(inexact_excess) <= excess_tolerance
+                inexact_excess = 0
 
                 R += 1
                 inexact_excess = lower(path[L], path[R])
@@ -133,8 +148,8 @@ def compute_inexact_flow_decomp_safe_paths(
             while R+1 < len(path):
                 rightdiff = upper(path[R], path[R+1]) - sum(upper(u, v) for u, v in G.out_edges(path[R]))
 
-                # (with float values an excess that is 0 comes out as 5.55e-17: compared up to a tolerance)
-                if inexact_excess + rightdiff <= 1e-9:
+                # (with float values an excess that is 0 comes out as 5.55e-17: compared up to the tolerance)
+                if inexact_excess + rightdiff <= excess_tolerance:
                     break
 
                 inexact_excess += rightdiff
@@ -143,7 +158,7 @@ def compute_inexact_flow_decomp_safe_paths(
                 path_not_suffix_of_previous = True
 
             # A window is safe only with positive excess flow (a single edge whose lower bound is 0 is in no decomposition path)
-            if path_not_suffix_of_previous and inexact_excess > 1e-9:
+            if path_not_suffix_of_previous and inexact_excess > excess_tolerance:
                 safe_paths_set.add(tuple(safe_path.copy())) if no_duplicates else safe_paths_list.append(safe_path.copy())
 
             # Remove the left most edge of the safe path
